@@ -82,12 +82,21 @@ theorem takeWhile_prefix {α} (p : α → Bool) (l : List α) :
 
 /-! ## cstr -/
 
+theorem length_takeWhile_le' {α} (p : α → Bool) (l : List α) : (l.takeWhile p).length ≤ l.length := by
+  induction l with
+  | nil => simp
+  | cons a l ih =>
+    by_cases h : p a = true
+    · simp only [List.takeWhile_cons, h, if_pos, List.length_cons]; omega
+    · simp [h]
+
 theorem cstr_length_le (s : Bytes) : (cstr s).length ≤ s.length := by
-  unfold cstr; exact List.length_takeWhile_le _ _
+  unfold cstr; exact length_takeWhile_le' _ _
 
 theorem cstr_no_nul (s : Bytes) : ∀ b ∈ cstr s, b ≠ 0 := by
   intro b hb
-  have := mem_takeWhile (· ≠ 0) s b hb
+  unfold cstr at hb
+  have := mem_takeWhile _ s b hb
   simpa using this
 
 theorem cstr_of_no_nul (s : Bytes) (h : ∀ b ∈ s, b ≠ 0) : cstr s = s := by
@@ -114,8 +123,9 @@ theorem cstr_terminated (s : Bytes) (h : 0 ∈ s) : s[(cstr s).length]? = some 0
       have : cstr s = s := by
         have := cstr_take s
         rw [heq, List.take_length] at this; exact this
-      exact cstr_no_nul s 0 (this ▸ h) rfl
-  obtain ⟨a, ha, hp⟩ := takeWhile_next (· ≠ 0) s hlt
+      exact cstr_no_nul s 0 (by rw [this]; exact h) rfl
+  unfold cstr at hlt ⊢
+  obtain ⟨a, ha, hp⟩ := takeWhile_next _ s hlt
   have : a = 0 := by simpa using hp
   subst this
   exact ha
@@ -196,13 +206,13 @@ theorem strlcat_buf (dst src : Bytes) (n : Nat) (h : (cstr dst).length < n) :
   rw [hm, strlcpy_buf _ _ _ (by omega), ← cstr_take]
   simp only [List.drop_drop, List.append_assoc]
   congr 3
-  omega
 
 theorem strlcat_length (dst src : Bytes) (n : Nat) (hn : n ≤ dst.length) :
     (strlcat dst src n).2.length = dst.length := by
   unfold strlcat
   simp only [List.length_append, List.length_take]
   rw [strlcpy_length _ _ _ (by simp [scanNul_eq]; omega)]
+  have := cstr_length_le dst
   simp [scanNul_eq]; omega
 
 /-! ## strpcpy / strpcat -/
@@ -239,6 +249,7 @@ theorem strpcat_eq (dst src : Bytes) (n : Nat) :
       simp [h2, h, this]; omega
     · have : ¬ (cstr dst).length + (cstr src).length < n := by omega
       simp [h2, this]
+      intro hc; omega
   · have hm : min n (cstr dst).length = n := by omega
     simp only [hm, Nat.lt_irrefl, if_false, h, false_and]
     unfold strlcat
